@@ -40,4 +40,23 @@ void ext3_install_obs(void);
 void ext3_run_begin(void);
 void ext3_obligations(void);
 void ext3_end_of_run(int all_exited);
+void ext3_wait_enter(struct rthr *th);
+void ext3_time_advance(int64_t to);
+/* ext4.c: pump, inotify */
+int ext4_live(int id);
+int ext4_reg(struct rthr *th, int id, const struct pop *op);
+int ext4_unreg(struct rthr *th, int id, int keep);
+int ext4_op(struct rthr *th, const struct pop *op);
+void ext4_cb(struct rthr *th, int id, int kind, int band, int64_t x1, int64_t x2);
+void ext4_cb_exit(struct rthr *th, int id, int kind);
+int ext4_foreign_thread_ok(int id, int kind);
+int ext4_nesting_ok(int kind, int outer_kind);
+int ext4_stale_ok(int id, int kind, int band);
+void ext4_wait_block(struct rthr *th);
+void ext4_teardown(struct rthr *th);
+void ext4_post_main(struct rthr *th);
+void ext4_install_obs(void);
+void ext4_run_begin(void);
+void ext4_obligations(void);
+void ext4_end_of_run(int all_exited);
 #endif
